@@ -259,7 +259,7 @@ def run_stream(stream, cuts, idle):
             samples.append(retained_bytes(sim.client))
         await asyncio.sleep(1.0)
         samples.append(retained_bytes(sim.client))
-        await sim.call("close")
+        await sim.close_guarded()
     # every third session a second, untouched serial client lives in the same process (its own port, its own two packets)
     sim, stats = simgw.run_session("waveshare", scenario, max_steps=2_000_000, bystander=(len(stream) + len(cuts)) % 3 == 0)
     return sim, stats, samples
